@@ -101,6 +101,10 @@ func registerSynth(_ []SynthPlugin, rec *synthRecorder) {
 				if resp != nil {
 					resp.UpdateOption(dhcpv4.OptMessageType(dhcpv4.MessageTypeNak))
 				}
+			case "nakreq": // NAK instead of ACK (a DISCOVER is still offered)
+				if resp != nil && resp.MessageType() == dhcpv4.MessageTypeAck {
+					resp.UpdateOption(dhcpv4.OptMessageType(dhcpv4.MessageTypeNak))
+				}
 			case "setlease":
 				if resp != nil {
 					resp.UpdateOption(dhcpv4.OptIPAddressLeaseTime(4242 * time.Second))
